@@ -106,7 +106,7 @@ func c19(tier string) []*explore.Scenario {
 		out = append(out, c19Channel(cp, bound))
 	}
 	out = append(out, c19ChannelDoneCtxRead(1), c19ChannelDoneCtxRead(2), c19ChannelDoneCtxRead(0))
-	out = append(out, c19ChannelCtx(), c19HTTPShapes(), c19HTTPDuplex(), c19HTTPCtx(), c19HTTPWriteCtx(), c19HTTPRaw(), c19HTTPMapper(), c19HTTPResponseLost(), c19HTTPResetAcrossTimeout())
+	out = append(out, c19ChannelCtx(), c19ChannelWriters(1, 2, 2), c19ChannelWriters(2, 3, 2), c19ChannelWriters(1, 3, 1), c19ChannelWriters(0, 2, 1), c19ChannelWriters(4, 2, 1), c19HTTPShapes(), c19HTTPDuplex(), c19HTTPCtx(), c19HTTPWriteCtx(), c19HTTPRaw(), c19HTTPMapper(), c19HTTPResponseLost(), c19HTTPResetAcrossTimeout())
 	for _, pending := range []string{"sender", "reader", "both", "none", "reader-after-abandoned-read", "write-in-flight-at-tick"} {
 		out = append(out, c19HTTPIdle(pending, bound))
 	}
@@ -190,6 +190,48 @@ func c19ChannelCtx() *explore.Scenario {
 			}
 			if !wdone || werr == nil {
 				vsched.Fail(fam+"|write-ignores-ctx", "blocked Write did not return an error after its context was cancelled (done=%v err=%v)", wdone, werr)
+			}
+		},
+	}
+}
+
+// c19ChannelWriters: k concurrent Writes on a queue of capacity capn that nobody reads, then the
+// context ends: every Write returns - at most capn of them with success, the others with an error -
+// and what the queue holds is what the successful ones wrote.
+func c19ChannelWriters(capn, k, bound int) *explore.Scenario {
+	fam := "C19/channel"
+	return &explore.Scenario{
+		Name: fmt.Sprintf("C19/channel/concurrent-writers/cap=%d/k=%d", capn, k), Family: fam, Prop: "C19", Bound: bound,
+		Run: func() {
+			in, out := make(chan *goat.Rpc), make(chan *goat.Rpc, capn)
+			rw := goat.NewGoatOverChannel(in, out)
+			vsched.Explore(true)
+			ctx, cancel := context.WithCancel(context.Background())
+			done := make([]bool, k)
+			errs := make([]error, k)
+			for i := 0; i < k; i++ {
+				i := i
+				vsched.GoNamed(fmt.Sprintf("writer-%d", i), func() { errs[i] = rw.Write(ctx, &goat.Rpc{Id: uint64(i + 1)}); done[i] = true })
+			}
+			vsched.Quiesce()
+			cancel()
+			vsched.Quiesce()
+			ok := 0
+			for i := 0; i < k; i++ {
+				if !done[i] {
+					vsched.Fail(fam+"|write-ignores-ctx", "%d concurrent Writes on a queue of capacity %d nobody reads: Write %d did not return after its context was cancelled", k, capn, i)
+					continue
+				}
+				if errs[i] == nil {
+					ok++
+				}
+			}
+			want := capn
+			if k < capn {
+				want = k
+			}
+			if ok != want || len(out) != want {
+				vsched.Fail(fam+"|delivery", "%d concurrent Writes on a queue of capacity %d: %d reported success, the queue holds %d", k, capn, ok, len(out))
 			}
 		},
 	}
